@@ -18,7 +18,8 @@ def decodeWord (a : Int) : Word :=
 /-- Translate hook lines to model events.  A logical thread `t` with `d` open operations
     (nested through callback bodies) acts as activity `t + K * (d - 1)`.  Pure preemption
     points (`stop.cas`, `stop.rm_check`, `stop.post_exec`, `ag.yield`, `inv.q`, `nop`) carry no
-    state change and are dropped; `stop.setrem` is merged with the `stop.self` that follows it
+    state change and are dropped (`stop.finw`, follow-up C14q, is a note in the same atomic block as
+    the `stop.fin` that follows it and is looked at by the monitors only); `stop.setrem` is merged with the `stop.self` that follows it
     in the same atomic block. -/
 partial def toEvents (K : Nat) : List Line → (Nat → Nat) → List (Option Ev × String) →
     List (Option Ev × String)
@@ -32,7 +33,7 @@ partial def toEvents (K : Nat) : List Line → (Nat → Nat) → List (Option Ev
     let bad (_ : Unit) := toEvents K rest depth ((none, l.raw) :: acc)
     let w := decodeWord l.a
     match l.site with
-    | "stop.held" | "stop.cas" | "stop.rm_check" | "stop.post_exec" | "ag.yield" | "inv.q" | "nop" =>
+    | "stop.held" | "stop.cas" | "stop.rm_check" | "stop.post_exec" | "ag.yield" | "inv.q" | "nop" | "stop.finw" =>
       toEvents K rest depth acc
     | "inv.rs" => toEvents K rest (upd depth t (d + 1)) ((some (.inv (t + K * d) .rs), l.raw) :: acc)
     | "inv.reg" => toEvents K rest (upd depth t (d + 1)) ((some (.inv (t + K * d) (.reg c)), l.raw) :: acc)
@@ -89,6 +90,8 @@ structure Mon where
   ctorDone : Nat → Bool := fun _ => false
   dtorStarted : Nat → Bool := fun _ => false
   dtorDone : Nat → Bool := fun _ => false
+  dtorRetOn : Nat → Option Nat := fun _ => none -- follow-up C14q: logical thread on which the destructor returned
+  wrote : Nat → Option Nat := fun _ => none     -- follow-up C14q: logical thread -> callback whose finished flag it has just stored (`stop.finw`)
   reqAtReg : Nat → Bool := fun _ => false
   maxCb : Nat := 0
   viol : List String := []
@@ -118,7 +121,7 @@ def monStep (m : Mon) (l : Line) : Mon :=
           addv m s!"callback {arg}: stop had been requested before its constructor was invoked but the constructor returned with {m.begins arg} invocations"
         else m
       else
-        let m := { m with dtorDone := upd m.dtorDone arg true }
+        let m := { m with dtorDone := upd m.dtorDone arg true, dtorRetOn := upd m.dtorRetOn arg (some t) }
         match m.runningOn arg with
         | some u => if u != t then
             addv m s!"callback {arg}: destructor returned on thread {t} while the callback is running on thread {u}"
@@ -135,9 +138,27 @@ def monStep (m : Mon) (l : Line) : Mon :=
     if l.a == 0 && m.runningOn c == some t then
       addv m s!"callback {c}: its destructor on thread {t} takes the waiting branch while the callback runs on the same thread"
     else m
+  -- follow-up C14q: `stop.finw` is emitted inside the `if (!is_removed)` block, i.e. it is the write itself
+  -- (`stop.fin` only reports the variable); trees without that hook never produce the line
+  | "stop.finw" =>
+    let m := { m with wrote := upd m.wrote t (some c) }
+    if m.dtorDone c then
+      addv m s!"callback {c}: request_stop wrote is_removed_ / the finished flag of the object after its destructor returned"
+    else m
   | "stop.fin" =>
-    if l.a == 0 && m.dtorDone c then
+    let m := if l.a != 0 && m.wrote t == some c then
+      addv m s!"callback {c}: request_stop wrote into the callback object although is_removed was set"
+    else m
+    let m := { m with wrote := upd m.wrote t none }
+    let m := if l.a == 0 && m.dtorDone c then
       addv m s!"callback {c}: request_stop stored the finished flag into the object after its destructor returned"
+    else m
+    -- follow-up C14q (converse, `C14q_fin_removed_iff_gone` / `C14q_removed_means_own_thread`): the stores are
+    -- skipped only for an object whose destructor has returned, on this thread (inside the invocation)
+    if l.a != 0 && !m.dtorDone c then
+      addv m s!"callback {c}: request_stop skipped the finished store (is_removed set) although its destructor has not returned"
+    else if l.a != 0 && m.dtorRetOn c != some t then
+      addv m s!"callback {c}: request_stop on thread {t} found is_removed set by a destructor that returned on another thread"
     else m
   | "stop.pre_exec" =>
     if m.dtorDone c then addv m s!"callback {c}: request_stop is about to publish is_removed_ after its destructor returned" else m
